@@ -14,15 +14,15 @@ import (
 	"os"
 	"strings"
 
+	. "gethverif/harness/hxlib"
+	"github.com/ethereum/go-ethereum/common"
 	"github.com/ethereum/go-ethereum/core/rawdb"
 	"github.com/ethereum/go-ethereum/core/types"
 	"github.com/ethereum/go-ethereum/crypto"
-	"github.com/ethereum/go-ethereum/common"
 	"github.com/ethereum/go-ethereum/ethdb/memorydb"
 	"github.com/ethereum/go-ethereum/rlp"
 	"github.com/ethereum/go-ethereum/trie"
 	"github.com/ethereum/go-ethereum/triedb"
-	. "gethverif/harness/hxlib"
 )
 
 type put struct{ k, v []byte }
@@ -541,7 +541,7 @@ func shuffle(r *Rng, ps []put) []put {
 
 func gen(r *Rng, tier string, emit func(Sx)) {
 	r = NewRng(r.U64())
-	n := 260
+	n := 450
 	if tier == "thorough" {
 		n = 6000
 	}
